@@ -522,7 +522,14 @@ class CFG:
                 productions.append(
                     Production(new_variables_d_local[production.head],
                                body))
-            final_replacement[ter] = new_variables_d_local[cfg.start_symbol]
+            if cfg.start_symbol is None:
+                # No start symbol, the language of this CFG is empty
+                final_replacement[ter] = Variable(
+                    "#EMPTY#" + SUBS_SUFFIX + str(idx))
+                idx += 1
+            else:
+                final_replacement[ter] = \
+                    new_variables_d_local[cfg.start_symbol]
             terminals = terminals.union(cfg.terminals)
         for production in self._productions:
             body = []
